@@ -11,12 +11,12 @@ func polygonReader(r io.Reader, byteOrder binary.ByteOrder) (geom.Geom, error) {
 	if err := binary.Read(r, byteOrder, &numRings); err != nil {
 		return nil, err
 	}
-	rings := make([]geom.Path, numRings)
+	rings := make([]geom.Path, 0, capHint(numRings, maxMemberHint))
 	for i := uint32(0); i < numRings; i++ {
 		if points, err := readPoints(r, byteOrder); err != nil {
 			return nil, err
 		} else {
-			rings[i] = points
+			rings = append(rings, points)
 		}
 	}
 	return geom.Polygon(rings), nil
